@@ -21,6 +21,7 @@ EXPLANATION = (
     "crossed, a notify yields None, a response yields an InternalError message whose id is copied from the rejected "
     "message; (stays-usable) a dropped frame continues the writer/proxy loop; (delivered-unchanged) an admitted frame is written with a flushing send, or every path from a buffering feed to the writer's next wait crosses a flush, so a later dropped frame cannot strand it in the write buffer. Assumption from the property: the limit is "
     "large enough for the replacement error reply (not re-checked)."
+    " Every WebSocketConfig literal leaves tungstenite's outbound limits at their defaults / usize::MAX or gives max_write_buffer_size at least the assumed limit + 14."
 )
 ASSUMPTIONS = [
     "Message::into_wire_bytes / to_vec emit 48 + len(query) + len(body) bytes (C01 emission-normal-form)",
